@@ -52,6 +52,7 @@ type Ctx struct {
 	fn       *ssa.Function
 	contract *Contract
 	entry    State
+	selDepth int
 	fnParams []Val
 	decls    []string
 	declSet  map[string]string
